@@ -1435,7 +1435,8 @@ class Gen:
         # qr / svd: tall-skinny, single column chunk
         m = rng.randint(2, max(3, self.maxdim * 2))
         n = rng.randint(1, min(m, 4))
-        leaf = self.new_leaf(shape=[m, n], dtype="float64")
+        # mostly float64; now and then a dtype NumPy promotes but cubed must either promote or refuse
+        leaf = self.new_leaf(shape=[m, n], dtype=rng.choice(["float64"] * 6 + ["float32", "float32", "int64", "int8", "bool"]))
         r = rng.random()
         if r < 0.6 or self.hostile == 0:
             # supported layout: row chunks >= n and dividing nothing in particular, one column chunk
